@@ -217,7 +217,7 @@ func init() {
 	register(&Prop{
 		ID:         "C14",
 		Title:      "Stored data is isolated from caller-owned memory",
-		Decided:    "ownership of every reference (pointer, slice, map) that crosses the API boundary: (R1) in each attribute-value conversion function of both adapters (discovered by signature, both directions) every reference-typed component stored into the result originates from an allocation made by the conversion, a recursive conversion, a copying helper or a value→pointer helper – never from a load out of the argument nor from the address of a part of it; (R2) no address into a package-level singleton object escapes (shared with C18.R6); (R3) the outputs of the client data methods carry stored data only through such conversions; (R4) the table stores a private top-level map (shared with C01.R4).",
+		Decided:    "ownership of every reference (pointer, slice, map) that crosses the API boundary: (R1) in each attribute-value conversion function of both adapters (discovered by signature, both directions) every reference-typed component stored into the result originates from an allocation made by the conversion, a recursive conversion, a copying helper or a value→pointer helper – never from a load out of the argument nor from the address of a part of it; (R2) no address into a package-level singleton object escapes (shared with C18.R6); (R3) the outputs of the client data methods carry stored data only through such conversions; (R4) the table stores a private top-level map (shared with C01.R4); (R5) a client that asks the engine to attach the stored item to a failed condition returns the engine's error only through a mapper that converts the item.",
 		NotDecided: "sharing through user-supplied native callbacks (they receive the stored map by design); immutability of Go strings is relied upon (string headers may share bytes safely).",
 		Rules: []RuleDef{
 			{ID: "R1", Desc: "ownership of reference-typed components in every attribute-value conversion (T-COPY)", Run: c14R1},
@@ -254,6 +254,7 @@ func init() {
 					e.check(good, "R4", e.fname(s.in.Parent())+":stored-value", e.ipos(s.in), "stored map origins: %s", strings.Join(os, "; "))
 				}
 			}},
+			{ID: "R5", Desc: "the stored map attached to a failed condition reaches a caller only through a converting error mapper: a client that asks for it maps the engine's error", Run: c14R5},
 		},
 	})
 }
@@ -480,4 +481,129 @@ func (e *Engine) producesFresh(h *ssa.Function, seen map[ssa.Value]bool) (string
 		}
 	}
 	return "fresh", ""
+}
+
+// c14R5: the engine attaches the STORED map itself to a failed condition's error (ConditionalCheckFailedException.Item)
+// when the request asks for it (ReturnValuesOnConditionCheckFailure). That is only safe while every adapter that can ask
+// for it hands the error back through a mapper that converts (copies) the item. For each client: if its UpdateItem input
+// mapper fills that request field, every error of the engine's Update that the client's UpdateItem returns must have
+// passed through a package-local error mapper that stores a CONVERSION of the item into the SDK error.
+func c14R5(e *Engine) {
+	cs := e.coreModel()
+	upd := e.fn("core", "Table.Update")
+	if !e.anchor("R5", "core.Table.Update", cs == nil || upd == nil) {
+		return
+	}
+	for _, role := range clientRoles {
+		// does the client ever ask for the item?
+		var askedAt ssa.Instruction
+		for _, fn := range e.funcs(role) {
+			instrs(fn, func(in ssa.Instruction) {
+				st, ok := in.(*ssa.Store)
+				if !ok {
+					return
+				}
+				f := fieldOf(st.Addr)
+				if f == nil || f.Name() != "ReturnValuesOnConditionCheckFailure" || !strings.HasSuffix(fieldOwner(f), "UpdateItemInput") {
+					return
+				}
+				if nt := namedOf(deref2(st.Addr)); nt != nil && nt.Obj().Pkg() != nil && nt.Obj().Pkg().Path() != modPath+"/types" {
+					return
+				}
+				if isNilConst(st.Val) {
+					return
+				}
+				askedAt = in
+			})
+		}
+		construct := role + ".Client.UpdateItem:failed-condition-item-is-converted"
+		fn := e.clientMethods(role)["UpdateItem"]
+		if fn == nil {
+			continue
+		}
+		if askedAt == nil {
+			e.pass("R5", construct, e.pos(fn.Pos()), "this client never asks the engine to attach the stored item to a failed condition")
+			continue
+		}
+		// error mappers of the role: error -> error functions whose family stores a converted item into an SDK error
+		copying := map[*ssa.Function]bool{}
+		for _, g := range e.funcs(role) {
+			if g.Parent() != nil || len(g.Params) != 1 || !isErrorType(g.Params[0].Type()) || errResultIndex(g) != 0 || g.Signature.Results().Len() != 1 {
+				continue
+			}
+			for h := range e.reach(g) {
+				if e.fnRole(h) != role {
+					continue
+				}
+				instrs(h, func(in ssa.Instruction) {
+					st, ok := in.(*ssa.Store)
+					if !ok {
+						return
+					}
+					f := fieldOf(st.Addr)
+					if f == nil || f.Name() != "Item" || !strings.Contains(fieldOwner2(st.Addr), "ConditionalCheckFailedException") {
+						return
+					}
+					for _, o := range e.origins(st.Val) {
+						if strings.HasPrefix(o, "conv ") || strings.HasPrefix(o, "copy-of ") {
+							copying[g] = true
+						}
+					}
+				})
+			}
+		}
+		bad := ""
+		ei := errResultIndex(fn)
+		for _, r := range returnsOf(fn) {
+			v := retVals(r)[ei]
+			if isNilConst(v) {
+				continue
+			}
+			// does the value come from the engine's Update without passing a copying mapper?
+			var walk func(x ssa.Value, d int) bool
+			walk = func(x ssa.Value, d int) bool {
+				if d > 6 {
+					return false
+				}
+				switch y := strip(x).(type) {
+				case *ssa.Extract:
+					if c, ok := y.Tuple.(*ssa.Call); ok && c.Call.StaticCallee() == upd {
+						return true
+					}
+				case *ssa.Phi:
+					for _, ed := range y.Edges {
+						if walk(ed, d+1) {
+							return true
+						}
+					}
+				case *ssa.Call:
+					g := y.Call.StaticCallee()
+					if g != nil && copying[g] {
+						return false
+					}
+					for _, a := range y.Call.Args {
+						if isErrorType(a.Type()) && walk(a, d+1) {
+							return true
+						}
+					}
+				}
+				return false
+			}
+			if walk(v, 0) {
+				bad = e.ipos(r)
+			}
+		}
+		if bad != "" {
+			e.fail("R5", construct, bad, "the client asks the engine for the item of a failed condition (%s) and returns the engine's error as it is: the error carries the stored map itself – a caller that writes through it changes the table without any API call", e.ipos(askedAt))
+		} else {
+			e.pass("R5", construct, e.pos(fn.Pos()), "the engine's error reaches the caller only through a mapper that converts the attached item")
+		}
+	}
+}
+
+func deref2(v ssa.Value) types.Type {
+	if fa, ok := v.(*ssa.FieldAddr); ok {
+		return fa.X.Type()
+	}
+	return v.Type()
 }
